@@ -443,6 +443,49 @@ fn f7(thorough: bool) -> Vec<Case> {
     out
 }
 
+/// F8: a closure created straight after control came back from code of another module (an exception
+/// thrown there and caught here, a call that returned, a fiber of that module that finished) resolves
+/// its free names in the module it is written in, when it is made and whenever it is called.
+fn f8() -> Vec<Case> {
+    use crate::meval::ModuleSource;
+    let mut out = Vec::new();
+    let other = vec![
+        var_stmt("g", s("other's g")),
+        fn_stmt(func("boom", &[], vec![st(StmtKind::Throw(bin(BinOp::Add, var("g"), s(" thrown"))))])),
+        fn_stmt(func("plain", &[], vec![st(StmtKind::Return(Some(var("g"))))])),
+        fn_stmt(func("fiber", &[], vec![st(StmtKind::Return(Some(invoke(var("Fiber"), "new", vec![lambda_expr(&[], var("g"))]))))])),
+    ];
+    for how in 0..4 {
+        for in_function in [false, true] {
+            let back: Vec<Stmt> = match how {
+                0 => vec![st(StmtKind::Try(vec![expr_stmt(invoke(var("other"), "boom", vec![]))], Some(("e".into(), vec![print_stmt(var("e"))])), None))],
+                1 => vec![print_stmt(invoke(var("other"), "plain", vec![]))],
+                2 => vec![print_stmt(invoke(invoke(var("other"), "fiber", vec![]), "call", vec![]))],
+                _ => vec![st(StmtKind::Try(vec![st(StmtKind::Try(vec![expr_stmt(invoke(var("other"), "boom", vec![]))], None, Some(vec![print_stmt(var("g"))])))], Some(("e".into(), vec![print_stmt(var("e"))])), None))],
+            };
+            let mut body = vec![var_stmt("loc", s("local"))];
+            body.extend(back);
+            // made with no call in between; reads a global of this module and a local
+            body.push(var_stmt("c", lambda_expr(&[], bin(BinOp::Add, bin(BinOp::Add, var("g"), s(" / ")), var("loc")))));
+            body.push(print_stmt(call(var("c"), vec![])));
+            body.push(expr_stmt(assign("g", s("main's g, changed"))));
+            body.push(print_stmt(call(var("c"), vec![])));
+            body.push(print_stmt(get(var("other"), "g")));
+            let mut main = vec![var_stmt("g", s("main's g")), st(StmtKind::Import("other".into(), None))];
+            if in_function {
+                main.push(fn_stmt(func("run", &[], body)));
+                main.push(expr_stmt(call(var("run"), vec![])));
+            } else {
+                main.extend(body);
+            }
+            let mut c = Case::new("F8_closure_made_after_return_from_another_module", main);
+            c.modules.insert("other".to_string(), ModuleSource { program: Some(other.clone()), compile_error: false });
+            out.push(c);
+        }
+    }
+    out
+}
+
 /// the three metamorphic wrappings: the same statements as a block, a function called once, a fiber
 /// called once (top-level declarations become locals / captured variables on another fiber's stack)
 fn wrappings(c: &Case) -> Vec<Case> {
@@ -486,6 +529,7 @@ pub fn run(ctx: &Ctx) -> Report {
     }
     all.extend(base);
     all.extend(f4());
+    all.extend(f8());
     let hooks = Hooks {
         attribute: &|_c, _m, _o, _mm| None,
         nontrivial: &|_c, m| m.out.len() >= 3,
@@ -495,7 +539,7 @@ pub fn run(ctx: &Ctx) -> Report {
     mcheck::fill_report(
         &mut report,
         &stats,
-        "F1: every combination of scope kind (block, function, lambda, method, while body, for body, try body) x exit (fall through, return, break, continue, throw) x two closures with every read/write action over two variables, created through 0-2 intermediate function levels, called inside the scope, escaped, and called in several orders after the scope has exited; F2: fresh variables per iteration/activation; F3: shadowing at depth 1-3 with a closure and a write at every level; F4: textual resolution and late-bound globals; F5: 1-3 closures over 1-3 shared variables, slot reuse; F6: captures of a try body left by exception or return; F7: capture order - three variables, up to three closures each with every ordered capture list (15 lists), so captures happen in every order relative to declaration order and to earlier captures. Each program also runs wrapped in a block, a function and a fiber. non-trivial = at least three observations printed.",
+        "F1: every combination of scope kind (block, function, lambda, method, while body, for body, try body) x exit (fall through, return, break, continue, throw) x two closures with every read/write action over two variables, created through 0-2 intermediate function levels, called inside the scope, escaped, and called in several orders after the scope has exited; F2: fresh variables per iteration/activation; F3: shadowing at depth 1-3 with a closure and a write at every level; F4: textual resolution and late-bound globals; F5: 1-3 closures over 1-3 shared variables, slot reuse; F6: captures of a try body left by exception or return; F7: capture order - three variables, up to three closures each with every ordered capture list (15 lists), so captures happen in every order relative to declaration order and to earlier captures; F8: closures made straight after control came back from another module (exception caught, call returned, fiber finished, exception through a finally block). Each program also runs wrapped in a block, a function and a fiber. non-trivial = at least three observations printed.",
         json!({"closures": 2, "variables": 2, "intermediate_levels": if thorough { 3 } else { 2 }, "wrappings": 3}),
     );
     report.assumptions = vec!["M-eval's cell-based environments define the intended semantics (DESIGN.md Appendix A)".into()];
